@@ -315,7 +315,7 @@ func tryGetRedumpKey(fsys afero.Fs, requestedPath string) ([]byte, error) {
 	}
 
 	// try .dkey file first
-	keyFile, err := fsys.Open(strings.TrimSuffix(requestedPath, ext) + dkeyExt)
+	keyFile, err := openKeyFile(fsys, strings.TrimSuffix(requestedPath, ext)+dkeyExt)
 	switch {
 	case err == nil:
 		defer keyFile.Close()
@@ -328,7 +328,7 @@ func tryGetRedumpKey(fsys afero.Fs, requestedPath string) ([]byte, error) {
 	// try .dkey in REDKEY directory (instead of PS3ISO)
 	pathElems[ps3IsoIdx] = redkeyDir
 	pathElems[len(pathElems)-1] = strings.TrimSuffix(pathElems[len(pathElems)-1], ext) + dkeyExt
-	keyFile, err = fsys.Open(filepath.Join(pathElems...))
+	keyFile, err = openKeyFile(fsys, filepath.Join(pathElems...))
 	if err == nil {
 		defer keyFile.Close()
 		return ReadKeyFile(keyFile)
@@ -339,6 +339,25 @@ func tryGetRedumpKey(fsys afero.Fs, requestedPath string) ([]byte, error) {
 	}
 
 	return nil, err
+}
+
+// openKeyFile opens key file, a directory of that name is not a key file.
+func openKeyFile(fsys afero.Fs, path string) (afero.File, error) {
+	f, err := fsys.Open(path)
+	if err != nil {
+		return nil, err
+	}
+
+	stat, err := f.Stat()
+	if err == nil && stat.IsDir() {
+		err = afero.ErrFileNotFound
+	}
+	if err != nil {
+		_ = f.Close()
+		return nil, err
+	}
+
+	return f, nil
 }
 
 // isKeyFileAbsent tells that key file surely does not exist: there is no such file, something on the way to it
